@@ -36,7 +36,7 @@ namespace Rfsm.Interp
     (history pseudo-states); history states have no children, are never parents, and own exactly
     one transition whose targets are non-history proper descendants of the parent (children for
     shallow history); listed transitions exist and start at the listing state; a `<state>` with
-    children has an initial transition whose targets are descendants (history children included);
+    children has an initial transition that starts at it and whose targets are descendants (history children included);
     every state other than the root has the root among its ancestors (the parent pointers form a
     tree, within the fuel of `ancestors`). -/
 def conformantB (d : Doc) : Bool :=
@@ -64,6 +64,7 @@ def conformantB (d : Doc) : Bool :=
           else true)
       && (if isCompoundState d s || (s == d.root && !st.kids.isEmpty) then
             st.initial != 0 && d.transitions.any (·.id == st.initial)
+            && (getTrans d st.initial).source == s
             && !(getTrans d st.initial).target.isEmpty
             && (getTrans d st.initial).target.all (fun t => valid t && isDescendant d t s)
           else true))
